@@ -233,3 +233,50 @@ pub fn ct_meta(ct: &Ciphertext) -> String {
         ct.data().len()
     )
 }
+
+/// Valid ciphertexts of OTHER shapes than the result an operation is about to produce (other size, flipped representation,
+/// other level, BGV factor / CKKS scale of a deeper level). They are handed to the destination-argument forms `op(a, .., &mut dest)`:
+/// what an output parameter held before the call must not influence the result (seeded round 4: five of seven history-gated
+/// changes skipped a `resize` / a metadata reset when the destination "already looked right").
+pub fn dirty_destinations(kit: &Kit) -> Vec<Ciphertext> {
+    use crate::engine::guard;
+    let mut v: Vec<Ciphertext> = vec![];
+    let ev = &kit.eval;
+    let pt = if kit.spec.scheme == Scheme::CKKS {
+        let enc = CKKSEncoder::new(kit.ctx.clone());
+        let vals: Vec<num_complex::Complex<f64>> = (0..kit.n() / 2).map(|i| num_complex::Complex::new(1.0 + i as f64, -0.5)).collect();
+        match guard(|| enc.encode_c64_array_new(&vals, None, (1u64 << 16) as f64)) {
+            Ok(p) => p,
+            Err(_) => return v,
+        }
+    } else {
+        kit.plain(&[1, 2 % kit.t().max(2)])
+    };
+    let Ok(a) = guard(|| kit.enc.encrypt_new(&pt)) else { return v };
+    let flip = |c: &Ciphertext| guard(|| if c.is_ntt_form() { ev.transform_from_ntt_new(c) } else { ev.transform_to_ntt_new(c) });
+    if let Ok(f) = flip(&a) {
+        v.push(f);
+    }
+    if let Ok(p3) = guard(|| ev.multiply_new(&a, &a)) {
+        if let Ok(p3n) = guard(|| ev.mod_switch_to_next_new(&p3)) {
+            v.push(p3n);
+        }
+        if let Ok(p5) = guard(|| ev.multiply_new(&p3, &p3)) {
+            v.push(p5);
+        } else {
+            v.push(p3);
+        }
+    }
+    if let Ok(an) = guard(|| ev.mod_switch_to_next_new(&a)) {
+        if let Ok(f) = flip(&an) {
+            v.push(f);
+        }
+        // deepest level, natural form
+        let mut cur = an;
+        while let Ok(nx) = guard(|| ev.mod_switch_to_next_new(&cur)) {
+            cur = nx;
+        }
+        v.push(cur);
+    }
+    v
+}
